@@ -837,9 +837,11 @@ class TrueTypeFont:
                     Tuple[int, ...],
                     struct.unpack(">%dH" % segcount, fp.read(2 * segcount)),
                 )
-                for ec, sc, idd, idr in zip(ecs, scs, idds, idrs):
+                for i, (ec, sc, idd, idr) in enumerate(zip(ecs, scs, idds, idrs)):
                     if idr:
-                        fp.seek(pos + idr)
+                        # idRangeOffset counts from its own location in the
+                        # idRangeOffset array, not from the start of the array.
+                        fp.seek(pos + 2 * i + idr)
                         for c in range(sc, ec + 1):
                             b = cast(Tuple[int], struct.unpack(">H", fp.read(2)))[0]
                             # 0 in glyphIdArray means "missing glyph": idDelta
